@@ -461,6 +461,11 @@ class Process:
             # APIs which don't use _raise_if_pid_reused().
             msg = "process no longer exists and its PID has been reused"
             raise NoSuchProcess(self.pid, self._name, msg=msg)
+        if self._gone:
+            # The process is known to have terminated: is_running() no
+            # longer re-checks its identity, so if the PID is alive
+            # again it necessarily belongs to another process.
+            raise NoSuchProcess(self.pid, self._name)
 
     @property
     def pid(self):
